@@ -77,7 +77,12 @@ func init() {
 				nr = 64
 			}
 			for i := 0; i < nr; i++ {
-				cse := core.MkCase("C04", "rounds", i, seed, c04RoundsParams{C: pick(r, 2, 3, 8, 64), Rounds: 1500, Perturb: i%2 == 0})
+				rp := c04RoundsParams{C: pick(r, 2, 3, 8, 64), Rounds: 1500, Perturb: i%2 == 0}
+				if i%4 >= 2 {
+					// many ticks offering less than the number of idle workers between the rounds
+					rp.C, rp.Rounds, rp.Filler = pick(r, 8, 16, 64), 100, 300
+				}
+				cse := core.MkCase("C04", "rounds", i, seed, rp)
 				cse.Race = i%4 == 3
 				cse.Procs = pick(r, 2, 4, 16)
 				cse.TimeoutMS = 120000
@@ -86,7 +91,7 @@ func init() {
 			return cs
 		},
 		Kinds:  map[string]core.RunFunc{"run": c04Run, "rounds": c04Rounds},
-		Floors: map[string]int64{"rendezvous_opened": 12, "highwater_reached_c": 8, "rounds_all_workers_busy": 2000},
+		Floors: map[string]int64{"rendezvous_opened": 12, "highwater_reached_c": 8, "rounds_all_workers_busy": 1500},
 	})
 }
 
@@ -234,6 +239,7 @@ type c04RoundsParams struct {
 	C       int  `json:"c"`
 	Rounds  int  `json:"rounds"`
 	Perturb bool `json:"perturb"`
+	Filler  int  `json:"filler"` // low-rate ticks (1 request, instant body) between rounds
 }
 
 // c04Rounds drives a real TriggerPool directly: each round offers exactly c requests once (no
@@ -246,8 +252,14 @@ func c04Rounds(c *core.Case, o *core.Outcome) {
 	var mu sync.Mutex
 	open := make(chan struct{})
 	arrived := 0
+	var filler atomic.Bool
+	var fillerDone atomic.Int64
 	scenario := func(t *f1testing.T) f1testing.RunFn {
 		return func(t *f1testing.T) {
+			if filler.Load() {
+				fillerDone.Add(1)
+				return
+			}
 			defer k.Enter(t)()
 			mu.Lock()
 			arrived++
@@ -273,9 +285,21 @@ func c04Rounds(c *core.Case, o *core.Outcome) {
 	pool := env.Manager.NewTriggerPool(p.C)
 	wctx := pool.Start(ctx)
 	r := c.Rng("rounds")
-	desc := fmt.Sprintf("c=%d perturb=%v procs=%d", p.C, p.Perturb, c.Procs)
+	desc := fmt.Sprintf("c=%d perturb=%v filler=%d procs=%d", p.C, p.Perturb, p.Filler, c.Procs)
 	for round := 1; round <= p.Rounds; round++ {
 		want := int64(round * p.C)
+		if p.Filler > 0 {
+			filler.Store(true)
+			for f := 0; f < p.Filler; f++ {
+				pool.Trigger(wctx, 1)
+				spin(time.Duration(r.IntN(20)) * time.Microsecond)
+			}
+			pool.Trigger(wctx, 0)
+			// let every filler iteration that was taken finish before the round starts
+			waitUntil(2*time.Second, func() bool { n := fillerDone.Load(); time.Sleep(300 * time.Microsecond); return n == fillerDone.Load() })
+			filler.Store(false)
+			o.AddObs("filler_ticks", int64(p.Filler))
+		}
 		pool.Trigger(wctx, p.C)
 		if !waitUntil(10*time.Second, func() bool { return k.Ended.Load() >= want }) {
 			inflight := k.Inflight.Load()
@@ -304,6 +328,6 @@ func c04Rounds(c *core.Case, o *core.Outcome) {
 	for site, n := range hc.ReachedCounts() {
 		o.AddObs("hook:"+site, n)
 	}
-	o.Sig("rounds:c=%d:perturb=%v:procs=%d", p.C, p.Perturb, c.Procs)
+	o.Sig("rounds:c=%d:perturb=%v:filler=%v:procs=%d", p.C, p.Perturb, p.Filler > 0, c.Procs)
 	o.Sample = map[string]any{"case": desc, "rounds": p.Rounds, "iterations": k.Started.Load(), "hooks_reached": hc.ReachedCounts()}
 }
